@@ -14,6 +14,7 @@ import (
 	"strconv"
 	"strings"
 	"time"
+	"unicode/utf8"
 
 	"github.com/btcsuite/btcd/btcec/v2/schnorr"
 )
@@ -1332,20 +1333,80 @@ func (ev *Event) Serialize() ([]byte, error) {
 		return nil, errors.New("nil event")
 	}
 
-	v := [6]any{
-		0,
-		ev.Pubkey,
-		ev.CreatedAt,
-		ev.Kind,
-		ev.Tags,
-		ev.Content,
+	// NIP-01 canonical form: [0,pubkey,created_at,kind,tags,content] without
+	// whitespace. encoding/json cannot be used for the strings because it
+	// also escapes <, >, &, U+2028 and U+2029.
+	ret := make([]byte, 0, 128+len(ev.Content))
+	ret = append(ret, "[0,"...)
+	ret = appendSerializedString(ret, ev.Pubkey)
+	ret = append(ret, ',')
+	ret = strconv.AppendInt(ret, ev.CreatedAt, 10)
+	ret = append(ret, ',')
+	ret = strconv.AppendInt(ret, ev.Kind, 10)
+	ret = append(ret, ',')
+	if ev.Tags == nil {
+		ret = append(ret, nullJSON...)
+	} else {
+		ret = append(ret, '[')
+		for i, tag := range ev.Tags {
+			if i > 0 {
+				ret = append(ret, ',')
+			}
+			if tag == nil {
+				ret = append(ret, nullJSON...)
+				continue
+			}
+			ret = append(ret, '[')
+			for j, elem := range tag {
+				if j > 0 {
+					ret = append(ret, ',')
+				}
+				ret = appendSerializedString(ret, elem)
+			}
+			ret = append(ret, ']')
+		}
+		ret = append(ret, ']')
 	}
+	ret = append(ret, ',')
+	ret = appendSerializedString(ret, ev.Content)
+	ret = append(ret, ']')
 
-	ret, err := json.Marshal(&v)
-	if err != nil {
-		return nil, fmt.Errorf("failed to marshal event: %w", err)
-	}
 	return ret, nil
+}
+
+// appendSerializedString appends s as a JSON string using only the escapes
+// NIP-01 mandates: \n, \", \\, \r, \t, \b, \f. The remaining control
+// characters are written as \u00xx and every other character verbatim.
+func appendSerializedString(dst []byte, s string) []byte {
+	const hexDigits = "0123456789abcdef"
+
+	dst = append(dst, '"')
+	for _, r := range s {
+		switch r {
+		case '\n':
+			dst = append(dst, '\\', 'n')
+		case '"':
+			dst = append(dst, '\\', '"')
+		case '\\':
+			dst = append(dst, '\\', '\\')
+		case '\r':
+			dst = append(dst, '\\', 'r')
+		case '\t':
+			dst = append(dst, '\\', 't')
+		case '\b':
+			dst = append(dst, '\\', 'b')
+		case '\f':
+			dst = append(dst, '\\', 'f')
+		default:
+			if r < 0x20 {
+				dst = append(dst, '\\', 'u', '0', '0', hexDigits[r>>4], hexDigits[r&0xf])
+			} else {
+				// invalid UTF-8 is ranged over as U+FFFD, as encoding/json does
+				dst = utf8.AppendRune(dst, r)
+			}
+		}
+	}
+	return append(dst, '"')
 }
 
 func (ev *Event) Verify() (bool, error) {
